@@ -32,6 +32,11 @@ pub fn run<P: Pat>(args: &Args) -> Value {
     {
         let a: Actor<P> = Actor::new(&config, 0);
         let b: Actor<P> = Actor::new(&config, 1);
+        // the control open ("service untouched") comes from a THIRD node, so that node b never holds the
+        // service unless its own attempt succeeded: whatever a refused attempt leaves in b stays visible
+        let d: Actor<P> = Actor::new(&config, 2);
+        let ids = vec![(1usize, b.node.id().value().to_string()), (2usize, d.node.id().value().to_string()),
+                       (0usize, a.node.id().value().to_string())];
         for p in &pairs {
             let (c, o) = (&p["c"], &p["o"]);
             n += 1;
@@ -40,7 +45,8 @@ pub fn run<P: Pat>(args: &Args) -> Value {
                 Ok(h) => ("Ok".to_string(), Some(P::seen(h))),
                 Err(e) => (e.clone(), None),
             };
-            let mut rec = json!({"k":"pair","i":p["i"],"cr":cr,"r":"-","same":1,"again":"-","untouched":0,"clean":0});
+            let mut rec = json!({"k":"pair","i":p["i"],"cr":cr,"r":"-","same":1,"again":"-","untouched":0,"clean":0,
+                                 "tag":-1,"tags_end":-1});
             if let Some(seen0) = seen0 {
                 let opened = P::open(&b.node, &name, o);
                 match &opened {
@@ -52,7 +58,9 @@ pub fn run<P: Pat>(args: &Args) -> Value {
                     }
                     Err(e) => rec["r"] = json!(e),
                 }
-                let again = P::open(&b.node, &name, &type_only(c));
+                // node b carries a service tag exactly if its attempt succeeded
+                rec["tag"] = json!(util::tagged_nodes(&config, &ids).contains(&1) as i64);
+                let again = P::open(&d.node, &name, &type_only(c));
                 match &again {
                     Ok(h) => {
                         let s = P::seen(h);
@@ -69,6 +77,7 @@ pub fn run<P: Pat>(args: &Args) -> Value {
             }
             drop(created);
             rec["clean"] = json!(matches!(does_exist::<P>(&name, &config), Ok(false)) as u64);
+            rec["tags_end"] = json!(util::tagged_nodes(&config, &ids).len());
             out.emit(&rec);
         }
     }
